@@ -81,16 +81,33 @@ fn ismatch(line: &str) -> String {
     format!("r {r} #T {}", truth_table(&ops, &paths))
 }
 
-/// `#P pat.. #Q ?path..` -> `#T rows..` (all patterns are regexes)
+/// `#P k:pat.. #Q ?path..` -> `#T rows..`; `k` = `r` (plain `Regex::new`, through the crate's hook) or a
+/// `RegexBuilder` flag: `i` case_insensitive, `m` multi_line, `s` dot_matches_new_line, `U` swap_greed.
 fn oracle(line: &str) -> String {
     let secs = sections(line);
     // U+2423 stands for a space inside a pattern or path (names of the real
     // benchmark binary contain spaces: `Pair<u8, u8>`, `(1, 2)`).
     let unsp = |s: &str| s.replace('\u{2423}', " ");
-    let pats: Vec<String> = section(&secs, "P").into_iter().map(|p| unsp(&p[1..])).collect();
     let paths: Vec<String> = section(&secs, "Q").into_iter().map(|p| unsp(&p[1..])).collect();
-    let ops: Vec<_> = pats.iter().map(|p| (true, false, p.as_str())).collect();
-    format!("#T {}", truth_table(&ops, &paths))
+    let mut rows = Vec::new();
+    for tok in section(&secs, "P") {
+        let (kind, pat) = (&tok[..1], unsp(&tok[2..]));
+        if kind == "r" {
+            rows.push(bits(paths.iter().map(|p| v::regex_is_match(&pat, p))));
+        } else {
+            let mut b = regex_lite::RegexBuilder::new(&pat);
+            match kind {
+                "i" => b.case_insensitive(true),
+                "m" => b.multi_line(true),
+                "s" => b.dot_matches_new_line(true),
+                "U" => b.swap_greed(true),
+                other => panic!("bad regex kind {other}"),
+            };
+            let re = b.build().expect("regex");
+            rows.push(bits(paths.iter().map(|p| re.is_match(p))));
+        }
+    }
+    format!("#T {}", rows.join(" "))
 }
 
 fn dispatch(mode: &str, line: &str) -> String {
